@@ -792,6 +792,23 @@ Section SpecFacts.
     rewrite remove_first_app; auto.
   Qed.
 
+  (* an outcome allowed by the specification is never a crash and never fuel exhaustion *)
+  Lemma spec_ok_no_crash c (l : list E) o l' r :
+    spec_ok E eqb ltb zero c l o l' r -> r <> OCrash E /\ r <> OFuel E.
+  Proof.
+    unfold spec_ok, SeqModels.spec_step. intros H.
+    destruct o;
+      match type of H with
+      | _ /\ _ => destruct H as [-> _]; split; discriminate
+      | _ => idtac
+      end;
+      destruct (negb (in_range E eqb c l _)); simpl in H;
+      repeat match type of H with
+             | context [match ?x with _ => _ end] => destruct x
+             end;
+      injection H as <- <-; split; discriminate.
+  Qed.
+
   (* the executable reference sort of the specification driver is an instance of the sort relation *)
   Section ISort.
     Hypothesis ltb_asym : forall x y, ltb x y = true -> ltb y x = false.
